@@ -100,8 +100,9 @@ Section Lex.
     | [] => Ok (flush st)
     | c :: rest =>
       let cl := classify c in
-      (* [c] begins a fresh token (or is skipped) *)
-      let start :=
+      (* [c] begins a fresh token (or is skipped).  A thunk: the extracted OCaml is strict, and
+         an eagerly evaluated [start] lexes the remainder twice per character of a long token. *)
+      let start := fun (_ : unit) =>
         match cl with
         | CSpace => lex_go LNone rest
         | CNameStart => lex_go (LName [c]) rest
@@ -116,14 +117,14 @@ Section Lex.
       | LName acc =>
         match cl with
         | CNameStart | CDigit | CUDigit => lex_go (LName (c :: acc)) rest
-        | _ => cons_toks (flush st) start
+        | _ => cons_toks (flush st) (start tt)
         end
       | LInt v =>
         match cl with
         | CDigit => lex_go (LInt (10 * v + (c - 48))) rest
-        | _ => cons_toks (flush st) start
+        | _ => cons_toks (flush st) (start tt)
         end
-      | LNone => start
+      | LNone => start tt
       end
     end.
 
